@@ -112,7 +112,7 @@ Definition cfg_orig : cfg := {| fixF1 := false; fixF3 := false; fixF4 := false; 
 
 Inductive op :=
 | OPush (n : nat) | OTag (n t : nat) | OUntag (t : nat) | ODelete (n : nat)
-| OGC | OAuto (b : bool) | OStray (s : stray).
+| OGC | OAuto (b : bool) | OStray (s : stray) | OReopen.
 
 Section Model.
 Variable succ : nat -> list nat.
@@ -372,6 +372,13 @@ Definition step (c : cfg) (kl : bool) (st : state) (o : op) : state * res :=
                    autogc := b |}, Ok)
   | OStray s => ({| blobs := blobs st; idx := idx st; gnodes := gnodes st;
                     strays := s :: strays st; autogc := autogc st |}, Ok)
+  (* oci.New on the same directory (index.json is up to date: AutoSaveIndex): loadIndex tags
+     every index entry and runs IndexAll from it; AutoGC is the default again *)
+  | OReopen =>
+    let ix := filter (fun e => match fst e with RStale _ => false | _ => true end) (idx st) in
+    ({| blobs := blobs st; idx := ix;
+        gnodes := dedup (flat_map (clo c (blobs st)) (map snd ix));
+        strays := strays st; autogc := true |}, Ok)
   end.
 
 End Model.
